@@ -71,6 +71,30 @@ P = {
    note=TB + " The XML layer (attribute parsing, several <f> per cell) is exercised end to end but not modelled.",
    technique="Coq proof (scanner invariant at token boundaries; induction over token lists and group cells) + extracted-model correspondence",
    design_ref="5/C15"),
+ "C08": dict(claimed=True,
+   text="Coq theorems over HeaderRow.v on top of the Range theorems: for the lazy path (xlsx/xlsb: filter by row, one padding cell, "
+        "from_sparse) and the eager path (xls/ods: re-window the stored range) and EVERY header row n: no panic, the range starts "
+        "exactly at row n when a cell exists at or below n and is empty otherwise, every position with row >= n reads as under the "
+        "default option (absent = Empty), nothing from a row < n appears; the default option starts at the first row holding a cell. "
+        "Option changes are covered by C07's state-machine theorems. Tie: real workbooks of the four formats (fixtures + generated) "
+        "through with_header_row/worksheet_range for header rows before, inside, in gaps of, after the data and u32::MAX, compared "
+        "with the extracted model and checked directly against the three conditions of the statement.",
+   note=TB + " The eager theorem needs the re-windowed box to stay below 2^32 cells (Range::new computes sizes in u32); the lazy-path "
+        "model is fed the non-Empty cells of the default-option range in row-major order.",
+   technique="Coq proof (reduction to from_sparse_spec / window_spec of the Range model) + model correspondence on real workbooks",
+   design_ref="5/C08"),
+ "C09": dict(claimed=True,
+   text="Coq theorem C09_model_is_spec: on every well-formed range, for the three header modes, the model of RangeDeserializer::new, "
+        "every next and every size_hint equals the specification (one record per row after the header, in order; hints bracket — in "
+        "fact equal — the remaining count at every point), by induction over the remaining rows; positional records, header binding "
+        "invariant under column permutation, selected headers (trimmed matching, HeaderNotFound, iff), the 31-rule conversion table "
+        "with integer wrap/parse lemmas, and CellError carrying the failing cell's kind and ABSOLUTE position. Tie: public API only — "
+        "Range::deserialize / builder over random ranges at any origin x header configurations x a family of 40 cell kinds x "
+        "Vec/tuples/HashMap/structs compiled into the harness.",
+   note=TB + " Decimal text -> float, float -> text and atoi_simd enter the model as a Section variable (reference versions are run by the "
+        "driver); the theorems hold for every instantiation. The chrono deserialize_as_* helpers are covered under C11.",
+   technique="Coq proof (iteration-state invariant, permutation lemmas, conversion table) + extracted-model correspondence through the public API",
+   design_ref="5/C09"),
 }
 REASON_TODO = "not claimed yet: model and theorems for this property are still being built (see DESIGN.md section 9)"
 
